@@ -5,7 +5,7 @@
    guarded hooks, under varying thread counts, skip patterns, file layouts, index use,
    hash seeds (C06) and injected unit failures (C07).
 """
-import json, os, itertools, shutil
+import re, json, os, itertools, shutil
 from vlib import env, tlc, jobs, report
 
 DEMO = os.path.join(env.REPO, 'test', 'files')
@@ -289,6 +289,62 @@ def split_files(files, parts, workdir, order_seed):
     return out
 
 
+def timeout_pairs(rep, tier, work):
+    """A transcript that times out is retried with lower complexity limits; that must not depend on the thread count and must
+    not leak into other transcripts: the same input with the same injected timeout under --threads 1 and --threads 2 gives the
+    same peptide set (MonotoneTrace kind "same")."""
+    from checks import cv
+    from vlib import cvgen
+    r = env.rng('c06-timeout')
+    items = []
+    k = 0
+    while len(items) < (6 if tier == 'quick' else 60) and k < 400:
+        k += 1
+        it = cv.make_case(r, 'multi', os.path.join(work, 'tmo'), k, tier)
+        if it and len(it['case']['txs']) >= 2:
+            items.append(it)
+    jl, meta = [], []
+    for it in items:
+        for t in it['case']['txs']:
+            tid = t['tx']['id']
+            for th in (1, 2):
+                a = dict(it['args'], max_variants_per_node=[7, 1], additional_variants_per_misc=[2, 0], threads=th,
+                         output_path=os.path.join(os.path.dirname(it['args']['output_path']), f'tmo_{tid}_{th}.fasta'))
+                jl.append(dict(cmd='callVariant', args=a, timeouts={tid: 1}))
+            meta.append((it, tid))
+    # one process per run: worker pools of a multi-threaded run are cached inside a process and would keep the
+    # environment (and the injected-timeout counters) of an earlier job
+    res = jobs.run_jobs('run_cv_batch.py', [dict(jobs=[j]) for j in jl], timeout=3400)
+    flat = []
+    for rr in res:
+        if not rr.get('ok'):
+            rep.machinery(f"timeout-pair worker failed: {rr.get('error')} {rr.get('stderr', '')[-300:]}"); return
+        flat.append(rr['results'][0])
+    cases, info = [], []
+    for n, (it, tid) in enumerate(meta):
+        xa, xb = flat[2 * n], flat[2 * n + 1]
+        if not xa['ok'] or not xb['ok']:
+            rep.violation(f"timeout-crash:{env.canon_hash([it['variants'], tid])}",
+                          f"callVariant raised under an injected timeout on {tid}: {xa['error'] or xb['error']}", dict(variants=it['variants']))
+            continue
+        cases.append(dict(kind='same', a=it['case']['cfg'], b=it['case']['cfg'], outA=cv.fasta_case(xa['fasta']),
+                          outB=cv.fasta_case(xb['fasta']), added='', txs=[]))
+        info.append((it, tid, xa, xb))
+    verdicts = cv.tlc_cases('MonotoneTrace', cases, work, 'tmo', rep)
+    for (it, tid, xa, xb), vs in zip(info, verdicts):
+        rep.traces(1); rep.case(1, ('timeout', env.canon_hash([it['variants'], tid])) if xa['fasta'] else None)
+        kinds = [re.match(r'"(\w+)"', v).group(1) for v in vs]
+        if 'done' not in kinds:
+            rep.machinery(f"no verdict for timeout pair {tid}")
+        if 'differs' in kinds:
+            peps = [''.join(re.findall(r'"(.)"', x)) for v in vs if v.startswith('"differs"') for x in re.findall(r'<<(.*?)>>', v)]
+            rep.violation(f"timeout-threads:{env.canon_hash([it['variants'], tid])}",
+                          f"with a timeout injected on {tid} the peptide set depends on --threads (1 vs 2): {peps[:6]}",
+                          dict(gtf=it['gtf'], chroms=it['chroms'], variants=it['variants'], timeout_on=tid,
+                               threads1=sorted(s for _, s in xa['fasta']), threads2=sorted(s for _, s in xb['fasta'])))
+    rep.part('timeout_pairs', pairs=len(info))
+
+
 def check_c06(tier):
     rep = report.Report('C06', tier)
     rep.cov['rule'] = ("model: every skip pattern x failing-unit set x threads 1..4 x completion order of "
@@ -356,6 +412,7 @@ def check_c06(tier):
                 continue
             runs.append(run_record(m, res, th, False, [], f"{inp['name']}:{label}"))
             meta.append((inp['name'], label, len(m['base_table'])))
+    timeout_pairs(rep, tier, work)
     verdicts = validate(runs, rep, work, 'c06')
     if verdicts is None:
         return rep.finish()
